@@ -211,6 +211,51 @@ def h1ErrorReplyAfter (canWrite : Bool) (relayed : Option Nat) (code : Nat) (m :
 def clientWire (relayedBytes : Bytes) (canWrite : Bool) (relayed : Option Nat) (code : Nat) (m : Bytes) : Bytes :=
   relayedBytes ++ ((h1ErrorReplyAfter canWrite relayed code m).1).getD []
 
+/-! ### a whole HTTP/1 client connection -/
+
+/-- what `Http1Server` is asked to do on one client connection, in order -/
+inductive H1Op where
+  | relay (st : Nat) (headBytes : Bytes)      -- `send(ResponseHeaders)`: a head with status `st`, assembled to `headBytes`
+  | body (chunk : Bytes)                      -- `send(ResponseData)`
+  | error (code : Nat) (m : Bytes)            -- `send(ResponseProtocolError)`
+
+structure H1Conn where
+  relayed : Option Nat      -- `self.response` (status of the last head written)
+  canWrite : Bool           -- the client connection can still be written to (writes after our close are dropped)
+  wire : Bytes              -- everything the client has received
+  pages : Nat               -- number of error pages written so far
+deriving DecidableEq, Repr
+
+def h1Step (c : H1Conn) : H1Op → H1Conn
+  | .relay st hb => { c with relayed := some st, wire := if c.canWrite then c.wire ++ hb else c.wire }
+  | .body ch => { c with wire := if c.canWrite && c.relayed.isSome then c.wire ++ ch else c.wire }   -- `assert self.response`
+  | .error code m =>
+    let r := h1ErrorReplyAfter c.canWrite c.relayed code m
+    { c with wire := c.wire ++ r.1.getD [], canWrite := c.canWrite && !r.2, pages := c.pages + (if r.1.isSome then 1 else 0) }
+
+def h1Run (ops : List H1Op) : H1Conn := ops.foldl h1Step ⟨none, true, [], 0⟩
+
+/-! ### the HTTP/2 send site -/
+
+/-- what `Http2Connection._handle_event(ResponseProtocolError)` does on the client's stream -/
+inductive H2Reply where
+  | nothing                                         -- the stream is closed already
+  | page (headers : List (Bytes × Bytes)) (body : Bytes)   -- HEADERS + DATA(END_STREAM)
+  | reset (h2code : Nat)                            -- RST_STREAM
+deriving DecidableEq, Repr
+
+/-- the `match event.code` of the RST_STREAM branch, by `ErrorCode.value` (h2 error codes: 8 CANCEL, 2 INTERNAL_ERROR,
+    13 HTTP_1_1_REQUIRED) -/
+def h2ResetCode (code : Nat) : Nat :=
+  if code = 11 ∨ code = 10 ∨ code = 6 then 8 else if code = 8 then 13 else 2
+
+/-- `closed`: `is_closed(stream)`; `openForUs`: `is_open_for_us(stream)`; `headersSent`: response HEADERS already sent -/
+def h2ErrorReply (closed openForUs headersSent : Bool) (code : Nat) (m : Bytes) : H2Reply :=
+  if closed then .nothing
+  else match errorStatus code with
+    | some s => if openForUs && !headersSent then .page (h2ErrorHeaders s) (formatError s m) else .reset (h2ResetCode code)
+    | none => .reset (h2ResetCode code)
+
 /-! ### reference HTTP/1.1 response reader -/
 
 structure Resp where
